@@ -115,6 +115,7 @@ type Result struct {
 	Digest     string             `json:"digest,omitempty"` // hash of everything observed (streams, decisions): compared by the determinism self-test
 	Sample     json.RawMessage    `json:"sample,omitempty"`
 	WallMS     float64            `json:"wall_ms"`
+	Decisions  []int              `json:"decisions,omitempty"` // first batch's decision sequence (only when VERIF_EMIT_DECISIONS is set)
 	Harness    string             `json:"harness,omitempty"` // a defect of the harness itself (stub disagrees with the real component): exit 2, never a violation
 }
 
